@@ -190,7 +190,7 @@ def forbidden_tokens(paths):
     return hits
 
 
-def audit_axioms(prop, mods, theorems, timeout):
+def audit_axioms(prop, mods, theorems, timeout, thm_mod=None):
     """#print axioms for every theorem; returns {name: set(axioms) | None (missing)}"""
     if not theorems:
         return {}
@@ -211,6 +211,34 @@ def audit_axioms(prop, mods, theorems, timeout):
         res[m.group(1)] = set(a.strip() for a in m.group(2).replace('\n', ' ').split(',') if a.strip())
     for m in re.finditer(r"'([^']+)' does not depend on any axioms", txt):
         res[m.group(1)] = set()
+    missing = [t for t in theorems if res[t] is None]
+    if missing and thm_mod:
+        # the combined audit file could not be elaborated as a whole (e.g. two modules of different
+        # families that cannot be imported together): audit the missing theorems module by module
+        groups = {}
+        for t in missing:
+            if thm_mod.get(t):
+                groups.setdefault(thm_mod[t], []).append(t)
+
+        def one(item):
+            k, (m, ts) = item
+            pth = os.path.join(d, 'Audit_%s_%d.lean' % (prop, k))
+            with open(pth, 'w') as f:
+                f.write('import %s\n\n' % m)
+                for t in ts:
+                    f.write('#print axioms %s\n' % t)
+            q = subprocess.run(['lake', 'env', 'lean', pth], cwd=LEAN, capture_output=True, text=True, timeout=timeout)
+            os.remove(pth)
+            return q.stdout + q.stderr
+        from concurrent.futures import ThreadPoolExecutor
+        with ThreadPoolExecutor(max_workers=8) as ex:
+            for txt2 in ex.map(one, enumerate(sorted(groups.items()))):
+                for m in re.finditer(r"'([^']+)' depends on axioms: \[([^\]]*)\]", txt2, re.S):
+                    if m.group(1) in res:
+                        res[m.group(1)] = set(a.strip() for a in m.group(2).replace('\n', ' ').split(',') if a.strip())
+                for m in re.finditer(r"'([^']+)' does not depend on any axioms", txt2):
+                    if m.group(1) in res:
+                        res[m.group(1)] = set()
     return res
 
 
@@ -380,7 +408,8 @@ def run_check(prop, spec, tier, seed):
                 status[o['id']] = (False, 'model %s can no longer be generated from the source: %s'
                                    % (mdl, untraceable[mdl].get('error')))
     try:
-        ax = audit_axioms(prop, okmods & set(mods), thms, timeout=1800)
+        thm_mod = {t: o['module'] for o in obls if o.get('module') for t in o['theorems']}
+        ax = audit_axioms(prop, okmods & set(mods), thms, timeout=1800, thm_mod=thm_mod)
     except subprocess.TimeoutExpired:
         log('axiom audit timed out')
         return 2
